@@ -27,29 +27,32 @@ from ..lib.impl import ERRSHOW, Raised, call, err_class
 LEVEL = "proof"
 CLAIM = dict(
     category="proof",
-    text="DarSIA's own aliasing logic is modelled as a heap of cells (Image = record of references; numpy views refer to the "
-    "buffer they read) for 23 call forms: constructor (incl. dimensions=/height=), copy, + - * scalar, comparisons, "
-    "astype(numpy type / Image class), img_as / to_trichromatic(return_image=True) / ClipModel / TVD on images (copy + rebind), "
-    "to_monochromatic, time_slice, time_interval, subregion, weight by number / image, stack, resize / uniform_refinement / "
-    "zeros_like (type(a)(new, **a.metadata())), reduce_axis, extrude_along_axis, superpose, read-only measurements, model "
-    "calls on raw arrays, plus the in-place operations append, in-place to_trichromatic / attribute rebinding and pixel "
-    "writes through an image. Proved for all heaps: every call and every chain of calls leaves everything reachable from its "
-    "arguments unchanged (op_preserves_args, chain_preserves_args, stack_preserves_images); the result is a new object from "
-    "which only new cells or the documented shared cells are reachable (result_fresh_or_documented_view: the pixel buffer "
-    "for the three view-returning calls, the date/time objects handed on by metadata(), nothing for copy / * / astype / "
-    "img_as / colour conversions / weight / stack); a later pixel write through the result of a call documented to return a "
-    "new image cannot reach any pre-existing object, and in general only documented shared cells "
-    "(write_result_isolated, write_result_touches_only_shared); append / in-place conversions applied to a result never "
-    "reach an argument (inplace_on_result_isolated); append writes only self; + - * are element-wise; the tabulated "
-    "__mul__ guard admits every documented scalar type. Tie: random programs over all these statements, compared statement "
-    "by statement on values AND object identities (which image shares which buffer / list). New arrays computed by numpy / "
-    "cv2 / skimage enter the model as parameters: their VALUES (resize, colour conversion, warping, dtype promotion of "
-    "arithmetic) are not modelled. Observed only: the remaining registry forms (EMD, wasserstein, random_patches, "
-    "coordinate-based subregions, Resize options, ...), the snapshot oracle incl. later in-place work on every result.",
-    note="proof part: aliasing / frame / reachability of 23 modelled call forms and 3 in-place operations over exact rationals; "
-    "observed part: ~100 call forms x random images, values produced by cv2 / skimage / numpy.",
-    technique="Lean 4 proof (heap/frame model, freshness invariant, induction over call chains, over reachability and over the "
-    "list passed to stack) + G1 tabulated guard + differential correspondence with tracked identities + snapshot oracle",
+    text="What is proved and what carries it. (1) MODEL: a heap of cells (Image = record of references; numpy views refer to "
+    "the buffer they read) with 23 returning call forms and 3 in-place operations, written to mirror reads / allocations / "
+    "writes of the code. The frame statements op_frame / op_preserves_args / chain_preserves_args hold BY CONSTRUCTION of this "
+    "model (every returning call only allocates or writes cells it allocated) - they say nothing about the code unless the "
+    "model is right. (2) What ties the model's write behaviour to the code: (a) source_write_sets - for the 43 DarSIA "
+    "functions the model stands for, the writes to caller-owned objects found in the SOURCE (AST, syntactic may-alias "
+    "analysis: attribute stores, augmented / item assignments, mutating method calls, out=, np.random.* calls, on parameters "
+    "and their aliases) are regenerated on every check and must equal the write sets the model declares (only append, "
+    "set_time, in-place to_trichromatic and Geometry.integrate's cache write, to self); returning_calls_have_no_source_writes, "
+    "no_global_rng_writes. A new in-place write in these functions breaks an obligation. (b) the identity-tracking program "
+    "correspondence (31 statement kinds; values AND which image shares which buffer / list after every statement). (3) "
+    "Theorems with content beyond construction: stack / append induction (stack_preserves_images, append_writes_only_self), "
+    "result_fresh_or_documented_view (reachability from a result: new cells or documented shared cells), "
+    "write_result_isolated / write_result_touches_only_shared / inplace_on_result_isolated (later in-place work on a result), "
+    "copy_ops_share_no_pixels, element-wise + - *, the tabulated __mul__ guard. OBSERVED ONLY: preservation of the global "
+    "RNG STATE at run time (snapshot oracle; the table only shows the absence of np.random calls in the covered sources), "
+    "values of arrays computed by numpy / cv2 / skimage (parameters of the model), dtype promotion of arithmetic, the ~100 "
+    "registry call forms x random images with argument snapshots, chains and later writes on every result. Call forms or "
+    "program statements that raise in most of their cases are reported as marks (not counted as passing). Not proved: "
+    "preservation of WF / Typed by step (chain theorems protect objects of the initial heap via reachability; results "
+    "created mid-chain are protected by the frame statement only).",
+    note="frame theorems are definitional for the model; the load-bearing evidence is the generated source write-set table, the "
+    "identity-tracking correspondence and the snapshot oracle; sharing / later-write / stack theorems are genuine",
+    technique="Lean 4 proof (heap model; freshness and reachability invariants; induction over chains and over the list passed to "
+    "stack) + G2 write-set table from the AST + G1 tabulated guard + differential correspondence with tracked identities + "
+    "snapshot oracle",
 )
 
 EPOCH = dt.datetime(2020, 1, 1)
@@ -85,6 +88,200 @@ def emit_guard(t):
     for tag in TAGS:
         v = t[tag]
         L.append(f"  | .{tag} => " + (f"(.error .{v.cls})" if isinstance(v, Raised) else "(.ok ())"))
+    L += ["", "end Darsia.Gen"]
+    return "\n".join(L) + "\n"
+
+
+# ---------------------------------------------------------------------------------------------
+# G2: write sets of the source functions (AST)
+
+ALIAS_CALLS = {"get", "pop", "asarray", "view", "reshape", "squeeze", "ravel", "transpose"}
+MUT_METHODS = {"append", "extend", "insert", "pop", "remove", "sort", "reverse", "clear", "update", "fill", "resize",
+               "setdefault", "put", "itemset"}
+RNG_PURE = {"RandomState", "default_rng", "Generator", "get_state", "SeedSequence"}
+WATTRS = ["img", "series", "date", "time", "time_dim", "time_num", "color_space", "dimensions", "origin",
+          "cached_voxel_volume", "set_time"]
+
+
+def _root_path(e):
+    import ast
+
+    parts = []
+    while True:
+        if isinstance(e, ast.Attribute):
+            parts.append(e.attr)
+            e = e.value
+        elif isinstance(e, ast.Subscript):
+            parts.append("[]")
+            e = e.value
+        elif isinstance(e, ast.Name):
+            parts.append(e.id)
+            return list(reversed(parts))
+        elif isinstance(e, ast.Call) and isinstance(e.func, ast.Attribute) and e.func.attr in ALIAS_CALLS:
+            e = e.func.value
+        elif isinstance(e, ast.Starred):
+            e = e.value
+        else:
+            return None
+
+
+def write_set(fn, fresh_self=False, mutators=()):
+    """syntactic may-alias analysis of one function: writes to caller-owned objects (see DarsiaModel.Heap, `SrcFn`)"""
+    import ast
+    import inspect
+    import textwrap
+
+    f = ast.parse(textwrap.dedent(inspect.getsource(fn))).body[0]
+    kwname = f.args.kwarg.arg if f.args.kwarg else None
+    params = [a.arg for a in f.args.args + f.args.kwonlyargs] + ([f.args.vararg.arg] if f.args.vararg else []) + ([kwname] if kwname else [])
+    A = set(params)
+    if fresh_self:
+        A.discard("self")
+    writes = set()
+
+    def aliased(path):
+        if path is None:
+            return None
+        for k in range(len(path), 0, -1):
+            key = ".".join(q for q in path[:k] if q != "[]")
+            if key in A:
+                return key
+        return None
+
+    def record(root, kind, attr):
+        if root == kwname:  # the ** dictionary is a fresh object of the call
+            return
+        writes.add(("self" if root.split(".")[0] == "self" else ("globalRng" if root == "<global>" else "arg"), kind,
+                    attr if attr in WATTRS else "other"))
+
+    def scan(node):
+        for n in ast.walk(node):
+            if isinstance(n, ast.Call) and isinstance(n.func, ast.Attribute):
+                pth = _root_path(n.func.value)
+                r = aliased(pth)
+                if r and (n.func.attr in MUT_METHODS or n.func.attr in mutators):
+                    record(r, "call", n.func.attr)
+                fp = _root_path(n.func)
+                if fp and fp[:2] == ["np", "random"] and fp[-1] not in RNG_PURE:
+                    record("<global>", "rng", "other")
+                for kw in n.keywords:
+                    if kw.arg == "out":
+                        pr = aliased(_root_path(kw.value))
+                        if pr:
+                            record(pr, "out", "other")
+
+    def assign(t, value, top):
+        if isinstance(t, ast.Tuple):
+            for e in t.elts:
+                assign(e, value, top)
+            return
+        val_alias = aliased(_root_path(value)) is not None if not isinstance(value, ast.Tuple) else False
+        if isinstance(t, ast.Name):
+            if val_alias:
+                A.add(t.id)
+            elif top:
+                A.discard(t.id)
+            return
+        pth = _root_path(t)
+        if pth is None:
+            return
+        r = aliased(pth[:-1]) if len(pth) > 1 else None
+        if r is not None:
+            last = [q for q in pth[1:] if q != "[]"]
+            record(r, "store" if pth[-1] != "[]" else "setitem", last[-1] if last else "other")
+        if fresh_self and pth[0] == "self" and isinstance(t, ast.Attribute):
+            key = ".".join(q for q in pth if q != "[]")
+            (A.add if val_alias else A.discard)(key)
+
+    def visit(stmts, top):
+        for st in stmts:
+            if isinstance(st, (ast.FunctionDef, ast.ClassDef)):
+                visit(st.body, False)
+            elif isinstance(st, (ast.If, ast.While)):
+                scan(st.test)
+                visit(st.body, False)
+                visit(st.orelse, False)
+            elif isinstance(st, ast.For):
+                if aliased(_root_path(st.iter)) and isinstance(st.target, ast.Name):
+                    A.add(st.target.id)
+                scan(st.iter)
+                visit(st.body, False)
+                visit(st.orelse, False)
+            elif isinstance(st, ast.With):
+                visit(st.body, False)
+            elif isinstance(st, ast.Try):
+                visit(st.body, False)
+                for h in st.handlers:
+                    visit(h.body, False)
+                visit(st.orelse, False)
+                visit(st.finalbody, False)
+            elif isinstance(st, ast.Assign):
+                scan(st.value)
+                for t in st.targets:
+                    assign(t, st.value, top)
+            elif isinstance(st, ast.AnnAssign) and st.value is not None:
+                scan(st.value)
+                assign(st.target, st.value, top)
+            elif isinstance(st, ast.AugAssign):
+                scan(st.value)
+                pth = _root_path(st.target)
+                r = aliased(pth)
+                if r:
+                    last = [q for q in (pth or [])[1:] if q != "[]"]
+                    record(r, "aug", last[-1] if last else "other")
+            else:
+                scan(st)
+
+    visit(f.body, True)
+    return sorted(writes)
+
+
+def source_functions(d):
+    import darsia.image.arithmetics as ar
+    import darsia.restoration.resize as rz
+    import darsia.signals.reduction.dimensionreduction as dr
+    import darsia.utils.box as box
+    import darsia.utils.standard_images as si
+
+    I = d.Image
+    return [
+        ("imageInit", I.__init__, True), ("scalarInit", d.ScalarImage.__init__, True), ("opticalInit", d.OpticalImage.__init__, True),
+        ("copy", I.copy, False), ("add", I.__add__, False), ("sub", I.__sub__, False), ("mul", I.__mul__, False),
+        ("lt", I.__lt__, False), ("gt", I.__gt__, False), ("eq", I.__eq__, False), ("le", I.__le__, False), ("ge", I.__ge__, False),
+        ("astype", I.astype, False), ("imgAs", I.img_as, False), ("metadata", I.metadata, False),
+        ("opticalMetadata", d.OpticalImage.metadata, False), ("timeSlice", I.time_slice, False), ("timeInterval", I.time_interval, False),
+        ("slice", I.slice, False), ("subregion", I.subregion, False), ("append", I.append, False), ("setTime", I.set_time, False),
+        ("toTrichromatic", d.OpticalImage.to_trichromatic, False), ("toMonochromatic", d.OpticalImage.to_monochromatic, False),
+        ("weight", ar.weight, False), ("superpose", ar.superpose, False), ("stack", ar.stack, False),
+        ("resizeCall", rz.Resize.__call__, False), ("resize", rz.resize, False), ("equalizeVoxelSize", rz.equalize_voxel_size, False),
+        ("uniformRefinement", rz.uniform_refinement, False), ("axisReductionCall", dr.AxisReduction.__call__, False),
+        ("reduceAxis", dr.reduce_axis, False), ("extrude", dr.extrude_along_axis, False), ("zerosLike", si.zeros_like, False),
+        ("onesLike", si.ones_like, False), ("randomPatches", box.random_patches, False), ("clipModelCall", d.ClipModel.__call__, False),
+        ("linearModelCall", d.LinearModel.__call__, False), ("scalingModelCall", d.ScalingModel.__call__, False),
+        ("emdCall", d.EMD.__call__, False), ("emdPreprocess", d.EMD._preprocess, False), ("geometryIntegrate", d.Geometry.integrate, False),
+    ]
+
+
+def extract_write_sets(d):
+    fns = source_functions(d)
+    table = {}
+    mut = set()
+    for name, fn, fs in fns:
+        w = call(lambda: write_set(fn, fs))
+        if not isinstance(w, Raised) and not fs and any(r == "self" for r, _, _ in w):
+            mut.add(fn.__name__)
+    for name, fn, fs in fns:
+        table[name] = call(lambda: write_set(fn, fs, mutators=mut))
+    return table
+
+
+def emit_write_sets(table):
+    L = ["import DarsiaModel.Heap", "namespace Darsia.Gen", "open Darsia Darsia.Heap", "", "def writeSet : SrcFn → List SrcWrite"]
+    for name, w in table.items():
+        if isinstance(w, Raised):  # source not analysable: an unknown write makes the obligation fail
+            L.append(f"  | .{name} => [⟨.arg, .call, .other⟩]")
+        else:
+            L.append(f"  | .{name} => [" + ", ".join(f"⟨.{r}, .{k}, .{a}⟩" for r, k, a in w) + "]")
     L += ["", "end Darsia.Gen"]
     return "\n".join(L) + "\n"
 
@@ -321,6 +518,14 @@ CMPS = {"lt": lambda a, b: a < b, "gt": lambda a, b: a > b, "eq": lambda a, b: a
         "le": lambda a, b: a <= b, "ge": lambda a, b: a >= b}
 
 
+OP_STATS = {}  # statement kind -> [attempts, real call raised (statement dropped)]
+
+
+def _skip(op, res):
+    OP_STATS.setdefault(op, [0, 0])[1] += 1
+    return None
+
+
 def random_op(p, rng, malformed=False):
     d = p.d
     ims = p.images()
@@ -341,16 +546,17 @@ def random_op(p, rng, malformed=False):
         choices += ["cmpn", "cmpi"]
     if isbool(i):
         # comparison results are boolean arrays: numpy's boolean arithmetic is outside the exact-rational model
-        choices = ["copy", "subreg", "build"] + (["cmpn"] if im.img.dtype == bool else ["wpix", "aclass", "stack", "extrude"][: 3 if im.space_dim != 2 else 4])
+        choices = ["copy", "subreg", "build"] + (["cmpn"] if im.img.dtype == bool else ["wpix", "aclass", "stack", "extrude"][: 3 if (im.space_dim != 2 or type(im).__name__ == "OpticalImage") else 4])
     if im.series:
         choices += ["tslice", "tint"]
     if im.space_dim == 2 and im.scalar and not im.series and not isbool(i):
         choices += ["wimg", "wimg"]
     if not isbool(i):
         choices += ["crebind", "derive", "aclass", "measure", "arrmap", "wpix", "wpix"]
-        if im.space_dim >= 2:
+        # (an OpticalImage cannot change its space dimension: type(img)(...) forces space_dim = 2)
+        if im.space_dim >= 2 and type(im).__name__ != "OpticalImage":
             choices += ["reduce"]
-        if im.space_dim == 2:
+        if im.space_dim == 2 and type(im).__name__ != "OpticalImage":
             choices += ["extrude"]
         if type(im).__name__ == "OpticalImage" and not isbool(i):
             choices += ["tomono", "tomono", "rebind", "trichro"]
@@ -359,6 +565,7 @@ def random_op(p, rng, malformed=False):
     if malformed:
         choices = ["add_bad", "mul_bad", "tslice_bad", "stack_bad"]
     op = rng.choice(choices)
+    OP_STATS.setdefault(op, [0, 0])[0] += 1
     if op == "build":
         return build_image(p, rng)
     if op == "copy":
@@ -457,12 +664,12 @@ def random_op(p, rng, malformed=False):
         else:
             res = call(lambda: im.astype(np.float32))
         if isinstance(res, Raised):
-            return None
+            return _skip(op, res)
         return p.add(f"crebind {i} {arrtxt(res.img)}", "img", lambda: res)
     if op == "trichro":
         res = call(lambda: im.to_trichromatic("BGR", return_image=True))
         if isinstance(res, Raised):
-            return None
+            return _skip(op, res)
         return p.add(f"crebind {i} {arrtxt(res.img)}", "img", lambda: res)
     if op == "rebind":
         before = im.img
@@ -485,7 +692,7 @@ def random_op(p, rng, malformed=False):
         else:
             res = call(lambda: d.resize(im, shape=(rng.randint(2, 4), rng.randint(2, 4)), interpolation="inter_nearest"))
         if isinstance(res, Raised):
-            return None
+            return _skip(op, res)
         return p.add(f"derive {i} {arrtxt(res.img)}", "img", lambda: res)
     if op == "aclass":
         fs = bool(im.scalar and rng.random() < 0.5)
@@ -494,7 +701,7 @@ def random_op(p, rng, malformed=False):
         key = rng.choice(["red", "green", "blue", "gray"])
         res = call(lambda: im.to_monochromatic(key))
         if isinstance(res, Raised):
-            return None
+            return _skip(op, res)
         if key == "gray":
             return p.add(f"tomono {i} none {rlist(np.asarray(res.img, dtype=float).ravel())}", "img", lambda: res)
         k = ["red", "green", "blue"].index(key)
@@ -504,13 +711,13 @@ def random_op(p, rng, malformed=False):
         ax = rng.randrange(im.space_dim)
         res = call(lambda: d.reduce_axis(im, ax, mode="sum"))
         if isinstance(res, Raised):
-            return None
+            return _skip(op, res)
         return p.add(f"reduce {i} {ax} {arrtxt(res.img)} {rlist(res.origin)}", "img", lambda: res)
     if op == "extrude":
         ht, num = rng.choice([2, 0.5, 3]), rng.randint(1, 3)
         res = call(lambda: d.extrude_along_axis(im, float(ht), num))
         if isinstance(res, Raised):
-            return None
+            return _skip(op, res)
         return p.add(f"extrude {i} {fmt(ht)} {num} {rlist(res.origin)}", "img", lambda: res)
     if op == "superpose":
         j = partner(p, rng, i)
@@ -521,7 +728,7 @@ def random_op(p, rng, malformed=False):
             return None
         res = call(lambda: d.superpose(p.vars[lst][1]))
         if isinstance(res, Raised):
-            return None
+            return _skip(op, res)
         return p.add(f"superpose {lst} {arrtxt(res.img)} {rlist(res.dimensions)} {rlist(res.origin)}", "img", lambda: res)
     if op == "measure":
         if im.space_dim == 2 and im.scalar and not im.series and rng.random() < 0.5:
@@ -530,7 +737,7 @@ def random_op(p, rng, malformed=False):
         else:
             val = call(lambda: float(np.sum(im.img)))
         if isinstance(val, Raised) or not np.isscalar(val):
-            return None
+            return _skip(op, val)
         return p.add(f"measure 1 {i} {fmt(float(val))}", "tv", lambda: float(val))
     if op == "arrmap":
         arrs = [k for k, (kd, _) in enumerate(p.vars) if kd == "arr"]
@@ -538,7 +745,7 @@ def random_op(p, rng, malformed=False):
         res = call(lambda: d.LinearModel(scaling=2.0, offset=1.0)(p.vars[a][1]) if rng.random() < 0.5 else
                    d.ClipModel(**{"min value": 0.0, "max value": 2.0})(p.vars[a][1]))
         if isinstance(res, Raised):
-            return None
+            return _skip(op, res)
         return p.add(f"arrmap {a} {rlist(np.asarray(res, dtype=float).ravel())}", "arr", lambda: res)
     if op == "wpix":
         # a user writing pixels through an image obtained from an earlier call (in place, through views)
@@ -585,6 +792,7 @@ def random_op(p, rng, malformed=False):
 
 
 def gen_programs(ctx, d, n, n_bad):
+    OP_STATS.clear()
     progs = []
     for k in range(n + n_bad):
         p = Prog(ctx.rng, d)
@@ -1107,7 +1315,9 @@ def run_form(ctx, d, name, kinds, builder, kind=None, operand=None, check_values
     kind = kind or ctx.rng.choice(kinds)
     a = operand if operand is not None else rand_image(ctx, d, kind)
     built = call(lambda: builder(ctx, a))
+    st = ctx.cov.setdefault("forms", {}).setdefault(name, {"calls": 0, "raised": 0, "builder_raised": 0})
     if isinstance(built, Raised):
+        st["builder_raised"] += 1
         return None, None
     fn, args = built
     before = [snap(x, d) for x in args]
@@ -1115,7 +1325,6 @@ def run_form(ctx, d, name, kinds, builder, kind=None, operand=None, check_values
     res = call(fn)
     rs1 = rng_state()
     ctx.count(("form", name, kind, tuple(getattr(a, "shape", ())), str(getattr(a, "dtype", ""))), nontrivial=not isinstance(res, Raised))
-    ctx.cov.setdefault("forms", {}).setdefault(name, {"calls": 0, "raised": 0})
     ctx.cov["forms"][name]["calls"] += 1
     if isinstance(res, Raised):
         ctx.cov["forms"][name]["raised"] += 1
@@ -1203,6 +1412,11 @@ def oracle(ctx, d):
         for kind in kinds:
             for _ in range(reps * BOOST.get(name, 1)):
                 run_form(ctx, d, name, kinds, builder, kind=kind)
+    for name, st in ctx.cov.get("forms", {}).items():
+        total = st["calls"] + st["builder_raised"]
+        if total and (st["raised"] + st["builder_raised"]) > 0.5 * total:
+            # a form that (almost) always raises is vacuously "non-mutating": report it instead of counting it as passing
+            ctx.mark("ORACLE-VACUOUS", {"form": name, **st, "meaning": "this call form raised in most of its cases; nothing was checked"})
     chains(ctx, d, R, ctx.pick(400, 4000))
 
 
@@ -1220,8 +1434,14 @@ def replay(data):
 def run(ctx):
     import darsia as d
 
+    _fail = ctx.fail
+    ctx.fail = lambda sig, what, rep: _fail(sig, what, dict(rep, verif_seed=ctx.seed, tier=ctx.tier))  # replays are reproducible
+
     t = tabulate_guard(d)
     ctx.write_gen("MulGuard", emit_guard(t))
+    ws = extract_write_sets(d)
+    ctx.write_gen("WriteSets", emit_write_sets(ws))
+    ctx.cov["source_write_sets"] = {k: (repr(v) if isinstance(v, Raised) else [list(x) for x in v]) for k, v in ws.items() if isinstance(v, Raised) or v}
     ctx.cov["generated_tables"] = {"mulGuard": {k: repr(v) if isinstance(v, Raised) else "ok" for k, v in t.items()}}
     ctx.prove("C17")
     # the guard of the documented types, stated on the implementation
@@ -1246,6 +1466,12 @@ def run(ctx):
             stat[s.split()[0]] = stat.get(s.split()[0], 0) + 1
     ctx.cov["statement_distribution"] = stat
     ctx.cov["programs_ending_in_error"] = sum(p.dead for p in progs)
+    ctx.cov["statement_attempts_and_dropped"] = {k: v for k, v in sorted(OP_STATS.items())}
+    for k, (tried, dropped) in OP_STATS.items():
+        # a statement kind whose real call (almost) always raises is not tied at all: loud, not a silent pass
+        if tried >= 8 and dropped > 0.5 * tried:
+            ctx.mark("TIE-VACUOUS", {"statement": k, "attempts": tried, "real_call_raised": dropped,
+                                     "meaning": "the program correspondence never exercises this modelled call"})
     oracle(ctx, d)
     ctx.cov["rule"] = ("distinct = (call form, image kind, shape, dtype) for the registry, (kind, sequence of forms) for chains, "
                        "program text for the correspondence")
